@@ -86,7 +86,12 @@ def main(argv):
         kfail = open(os.path.join(cdir, "KernelGen.v.failed")).read().strip()
     except OSError:
         kfail = "KernelGen.v was not generated"
-    kproofs = bool(status.get("KernelGenProofs.v")) and bool(status.get("KernelGenProofs2.v"))
+    try:
+        kdir, kstatus = vlib.build_kernels(cdir, qdir)
+    except Exception as e:
+        kdir, kstatus = None, {}
+        kfail = kfail or ("kernel build failed: " + str(e)[:120])
+    kproofs = bool(kstatus.get("KernelGenProofs.v")) and bool(kstatus.get("KernelGenProofs2.v"))
     ktie = {"generated_from": "clang AST of key.c, rdbx.c, rdb.c, datatypes.c, srtp.c (tools/gen_kernels.py)",
             "functions": ["srtp_key_limit_update", "srtp_key_limit_set", "srtp_index_guess", "srtp_rdb_increment", "srtp_estimate_index",
                           "srtp_index_advance", "srtp_rdbx_estimate_index", "srtp_rdbx_check", "srtp_rdbx_get_roc", "srtp_rdbx_get_packet_index",
@@ -96,7 +101,7 @@ def main(argv):
     if tier == "thorough" and not kfail:
         # supporting run for the translator itself (trusted base of this tie): the real C functions against the generated Gallina
         try:
-            r = vlib.sh(["sh", os.path.join(VERIF, "tools/kernels_difftest.sh"), vlib.REPO, os.path.join(cdir, "cb"), os.path.join(qdir, "coq")], timeout=1200)
+            r = vlib.sh(["sh", os.path.join(VERIF, "tools/kernels_difftest.sh"), vlib.REPO, os.path.join(cdir, "cb"), os.path.join(kdir, "coq")], timeout=1200)
             ktie["translator_difftest"] = (r.stdout.strip().split("\n") or [""])[-1][:120] if r.returncode == 0 else "FAILED: " + (r.stderr or r.stdout)[-300:]
         except Exception as e:      # a supporting run: its failure is reported, it decides nothing
             ktie["translator_difftest"] = "not run: " + str(e)[:120]
@@ -124,7 +129,7 @@ def main(argv):
     cone = vlib.deps_cone(qdir, target)
     rel = [os.path.relpath(f, "coq") for f in cone]
     missing = [f for f in rel if not status.get(f)]
-    gate = vlib.gate_scan(qdir)
+    gate = vlib.gate_scan(qdir) + (vlib.gate_scan(kdir) if kdir else [])
     obligations = vlib.count_obligations(qdir, cone)
     proof_ok = not missing and not gate and os.path.exists(os.path.join(qdir, "coq", target + "o"))
     discharged = obligations if proof_ok else vlib.count_obligations(qdir, [f for f in cone if status.get(os.path.relpath(f, "coq"))])
@@ -154,10 +159,22 @@ def main(argv):
     qdir = qdir_model
     # ---- 3/4. correspondence + monitors
     import inspect
-    if len(inspect.signature(P.families).parameters) >= 3:
-        fams = P.families(tier, seed, {"cdir": cdir, "qdir": qdir, "status": status})
-    else:
-        fams = P.families(tier, seed)
+    def fams_for(sd):
+        if len(inspect.signature(P.families).parameters) >= 3:
+            return P.families(tier, sd, {"cdir": cdir, "qdir": qdir, "status": status})
+        return P.families(tier, sd)
+    fams = fams_for(seed)
+    # thorough tier: the same families again under further seeds (VERIF_THOROUGH_SEEDS of them in all, default 3): everything the
+    # generators derive comes from the seed, so each round is an independent sample of the same size; corpus scripts repeat harmlessly
+    extra_seeds = []
+    if tier == "thorough":
+        for j in range(1, max(1, int(os.environ.get("VERIF_THOROUGH_SEEDS", "3")))):
+            sd = seed + 7919 * j
+            extra_seeds.append(sd)
+            for f in fams_for(sd):
+                f.scripts = [(f"{nm}@{sd}", tx) for (nm, tx) in f.scripts]
+                fams.append(f)
+    ev["coverage"]["seeds"] = [seed] + extra_seeds
     corr = {"families": {}, "scripts": 0, "ops": 0, "disagreements": 0, "sanitizer_reports": 0, "monitor_hits": 0}
     samples = []
     hits_all = []
